@@ -3,6 +3,8 @@ import math
 import copy
 import pickle
 import random
+import traceback
+import warnings
 
 import numpy as np
 
@@ -11,11 +13,11 @@ from ..common import Suite, Finding, vhex, mhex, Reader, lean_batch
 from ..probes import quiet
 
 TRUSTED_EXTRA = ["C15: numpy.linalg.inv / cholesky / scipy factorized are library calls (parameters); single-precision back ends are compared at 2e-4 relative, double at 1e-9",
-                 "C15: the MKL path (use_mkl=True) is not exercised: the MKL library is not installed in this sandbox"]
+                 "C15: the MKL library is not installed in this sandbox: use_mkl=True exercises the documented fallback to SciPy, not MKL's own routines"]
 ASSUMPTIONS = ["the float64 reference is computed by the Lean model from the constructor arguments"]
 
 
-def build_case(rnd):
+def build_case(rnd, rnd2):
     import scipy.sparse as sp
     from hmclab.Distributions import LinearMatrix as LMwrap
     from hmclab.Distributions import LinearMatrix as _  # noqa: F401
@@ -49,25 +51,49 @@ def build_case(rnd):
     premul = rnd.choice([True, False, None])
     dtype = rnd.choice([np.float32, np.float64])
     via = rnd.choice(["wrapper", "class"])
-    Garg = sp.csr_matrix(G) if sparse else G.copy()
-    kw = {}
-    desc = {"shape": [nd, nm], "sparse": sparse, "covariance": covkind, "covariance_scale": scale, "premultiplication": premul, "dtype": np.dtype(dtype).name, "via": via}
-    with quiet(), np.errstate(all="ignore"):
+    # second stream: the encodings of the same problem -------------------------------------------
+    gstore = rnd2.choice([np.float64, np.float64, np.float32])
+    if rnd2.random() < 0.15:
+        G = np.round(2 * G)                 # whole-number entries, stored as integers
+        gstore = np.int64
+    wd = rnd2.choice([None, None, np.float32, np.float64])
+    cov_enc = "float"
+    if covkind == "scalar":
+        cov_enc = rnd2.choice(["float", "float", "numpy.float64", "numpy.float32"] + (["int"] if float(cov).is_integer() else []))
+        cov = {"float": float, "numpy.float64": np.float64, "numpy.float32": np.float32, "int": int}[cov_enc](cov)
+        C = np.eye(nd) * float(cov)
+    mkl = sparse and covkind != "full" and rnd2.random() < 0.3
+    G = G.astype(gstore).astype(float)       # the values the constructor is given
+    Garg = sp.csr_matrix(G.astype(gstore)) if sparse else G.astype(gstore)
+    kw = {"use_mkl": True} if mkl else {}
+    desc = {"shape": [nd, nm], "sparse": sparse, "covariance": covkind, "covariance_scale": scale, "premultiplication": premul, "dtype": np.dtype(dtype).name, "via": via,
+            "G_stored_as": np.dtype(gstore).name, "scalar_covariance_as": cov_enc, "use_mkl": mkl}
+    given = (Garg.toarray() if sparse else Garg.copy(), Garg.dtype, Garg.shape)
+    with quiet(), np.errstate(all="ignore"), warnings.catch_warnings():
+        warnings.simplefilter("ignore")
         if via == "wrapper":
             if not (sparse and covkind == "full"):
                 kw["premultiplication"] = premul
+            if wd is not None:
+                kw["dtype"] = wd
             obj = LMwrap(Garg, d.copy(), cov if not isinstance(cov, np.ndarray) else cov.copy(), **kw)
-            desc["dtype"] = "float32"  # the dispatcher constructs the concrete classes with their default precision
-            dtype = np.float32
+            # the precision asked for; without one, that of G (integers become floats)
+            dtype = np.dtype(wd if wd is not None else np.result_type(gstore, np.float32)).type
+            desc["dtype"] = np.dtype(dtype).name
+            desc["wrapper_dtype_argument"] = None if wd is None else np.dtype(wd).name
         else:
             if not sparse and covkind != "full":
                 obj = LM._LinearMatrix_dense_forward_simple_covariance(Garg, d.copy(), cov if not isinstance(cov, np.ndarray) else cov.copy(), dtype=dtype, premultiplication=premul)
             elif not sparse:
                 obj = LM._LinearMatrix_dense_forward_dense_covariance(Garg, d.copy(), cov.copy(), dtype=dtype, premultiplication=premul)
             elif covkind != "full":
-                obj = LM._LinearMatrix_sparse_forward_simple_covariance(Garg, d.copy(), cov if not isinstance(cov, np.ndarray) else cov.copy(), dtype=dtype, premultiplication=premul)
+                obj = LM._LinearMatrix_sparse_forward_simple_covariance(Garg, d.copy(), cov if not isinstance(cov, np.ndarray) else cov.copy(), dtype=dtype, premultiplication=premul, **kw)
             else:
                 obj = LM._LinearMatrix_sparse_forward_sparse_covariance(Garg, d.copy(), cov.copy(), dtype=dtype)
+    # the caller's matrix is the caller's: same values, dtype and shape after the construction
+    now = (Garg.toarray() if sparse else Garg, Garg.dtype, Garg.shape)
+    if not (now[1] == given[1] and now[2] == given[2] and np.array_equal(now[0], given[0])):
+        desc["caller_G_changed"] = f"dtype {given[1]} -> {now[1]}, shape {given[2]} -> {now[2]}"
     return obj, G, d, C, desc, dtype
 
 
@@ -75,6 +101,7 @@ def run(tier, seed):
     rnd = random.Random(1664525 * (seed + 15) % (1 << 31))
     thorough = tier == "thorough"
     findings = []
+    rnd2 = random.Random(seed * 31337 + 15)
     st = Suite("C15.backends", "the dispatching LinearMatrix wrapper and the four concrete classes x dense/sparse G x scalar/per-datum/full covariance x "
                "premultiplication in {True, False, None} x float32/float64 x histories of update_bounds / pickle / dill / copy / deepcopy round trips (bounds before or after, on the "
                "dispatcher or on the wrapped back end), under-/over-/exactly determined shapes: misfit(), gradient(), "
@@ -82,10 +109,14 @@ def run(tier, seed):
     reqs, metas = [], []
     for _ in range(1500 if thorough else 400):
         try:
-            obj, G, d, C, desc, dtype = build_case(rnd)
+            state2 = rnd2.getstate()
+            obj, G, d, C, desc, dtype = build_case(rnd, rnd2)
         except Exception as e:
+            rnd2.setstate(state2)
             st.case({"construct": repr(e)}, nontrivial=False)
             st.disagree({"construct": True}, "constructible", repr(e), "constructor raised")
+            findings.append(Finding("C15", f"the constructor raised {e!r}"[:300], {"kind": "construct", "error": type(e).__name__},
+                                    {"oracle": "construct", "error": repr(e), "traceback": traceback.format_exc()[-1500:]}))
             continue
         nd, nm = G.shape
         m = np.array([[rnd.gauss(0, 1)] for _ in range(nm)])
@@ -137,6 +168,13 @@ def run(tier, seed):
         st.count(f"{'sparse' if desc['sparse'] else 'dense'}/{desc['covariance']}")
         st.count(f"premultiplication={desc['premultiplication']}")
         st.count(f"dtype={desc['dtype']}")
+        st.count(f"G stored as {desc['G_stored_as']}")
+        if desc["covariance"] == "scalar":
+            st.count(f"scalar covariance as {desc['scalar_covariance_as']}")
+        if desc["use_mkl"]:
+            st.count("use_mkl=True (library absent: documented fallback to SciPy)")
+        if desc["via"] == "wrapper":
+            st.count(f"wrapper dtype argument={desc['wrapper_dtype_argument']}")
         st.count(f"covariance scale={desc['covariance_scale']}")
         st.count("history=" + ">".join(desc["history"]))
         Winv = np.linalg.inv(C)
@@ -153,6 +191,8 @@ def run(tier, seed):
         if not (common.close(pm, spec, 1e-9, 1e-9 * sc) and common.close(fm, spec, 1e-9, 1e-9 * sc) and common.vclose(pg, sgrad, 1e-9, 1e-9 * sc)):
             st.disagree(stim, {"spec": spec}, {"premultiplied": pm, "factor": fm}, "model forms disagree among themselves")
             continue
+        if "caller_G_changed" in desc:
+            problems.append(f"the constructor changed the caller's G: {desc['caller_G_changed']}")
         if "history_error" in obs:
             problems.append(f"history {desc['history']} raised {obs['history_error']}")
         if isinstance(obs["misfit"], str) or not common.close(obs["misfit"], spec, tol, tol * sc):
